@@ -373,6 +373,13 @@ def explore(harness, vc_factory, opts=None):
                 res.unsupported.append(f"{type(e).__name__}: {str(e)[:160]} (path {c.decisions})")
                 res.paths += 1
                 e = None
+            elif isinstance(e, AttributeError) and getattr(e, "obj", None) is not None and (type(e.obj).__module__ or "").split(".")[0] in ("contracts", "pyvc") \
+                    and not isinstance(e.obj, type):
+                # the code asked a stand-in object written for the contract (a recorder, a stub clock ...) for something it does not model:
+                # the harness has to be extended - undecided, never a violation
+                res.unsupported.append(f"contract stand-in {type(e.obj).__name__} does not model attribute {getattr(e, 'name', '?')!r} (path {c.decisions})")
+                res.paths += 1
+                e = None
             elif isinstance(e, AttributeError) and _attr_set_in_class_source(str(e)):
                 # an object built by the contract without running __init__ lacks an attribute that the class's own code assigns
                 # (e.g. a field added to __init__ by a refactoring): the harness has to be extended - undecided, never a violation
